@@ -341,6 +341,56 @@ def case_metrics(H, N):
             H.reach('%s/path%d/reach' % (name, pn), hyp)
 
 
+def case_metrics_jitter(H, N=3):
+    """identical trajectories whose timestamps differ by a jitter below the association threshold, on a time grid DENSER than the
+    threshold (several reference stamps inside the tolerance window): each pose must be associated with its nearest stamp, so every
+    ape / rpe statistic is zero"""
+    name = 'C19/ape-rpe/jitter/N=%d' % N
+    spacing, diff_ = 0.004, 0.01
+    keys = ['Max', 'RMSE', 'Mean', 'Min']
+    R0 = rand_group('SE3', 530, shape=(N,))
+
+    def stamps(j):
+        return torch.arange(N, dtype=torch.float64) * spacing + j
+
+    def prog(m):
+        m.ctx.minmax_decide = True
+        j = torch.zeros(N, dtype=torch.float64)
+        js = m.symbolic(j, 'j')
+        m.ctx.assume += [z3.And(x > -z3.RealVal('15/10000'), x < z3.RealVal('15/10000')) for x in js]     # |jitter| < spacing/2 < diff
+        R = R0.clone()
+        a = pp.metric.ape(stamps(0.0), R, stamps(0.0) + j, R.clone(), etype='translation', diff=diff_)
+        r = pp.metric.rpe(stamps(0.0), R, stamps(0.0) + j, R.clone(), etype='translation', diff=diff_)
+        return {k: m.full_terms(a[k])[0] for k in keys}, {k: m.full_terms(r[k])[0] for k in keys}, js
+
+    def replay(model):
+        worst, wj = 0.0, None
+        j0 = torch.tensor([float(model.get('j%d' % i, 0.0)) for i in range(N)], dtype=torch.float64)
+        for jj in (j0, j0 * 0.5, torch.full((N,), 0.0012, dtype=torch.float64), torch.full((N,), -0.0012, dtype=torch.float64),
+                   torch.tensor([0.0012, -0.0012, 0.0007][:N], dtype=torch.float64)):
+            jj = jj.clamp(-0.00149, 0.00149)
+            a = pp.metric.ape(stamps(0.0), R0.clone(), stamps(0.0) + jj, R0.clone(), etype='translation', diff=diff_)
+            r = pp.metric.rpe(stamps(0.0), R0.clone(), stamps(0.0) + jj, R0.clone(), etype='translation', diff=diff_)
+            z = max(abs(float(a[k])) + abs(float(r[k])) for k in keys)
+            if z > worst:
+                worst, wj = z, jj.tolist()
+        return worst > 1e-9, ('identical trajectories, stamps %s + jitter %s (threshold %s): ape/rpe statistics are not zero (sum of |stat| up to %.3g): '
+                              'a pose was associated with a stamp that is not the nearest' % (stamps(0.0).tolist(), wj, diff_, worst))
+
+    def on_raise(ctx, e):
+        H.absorb(ctx)
+        H.prove('%s/raising-path%d-infeasible' % (name, H.paths), H.hyps_of(ctx), z3.BoolVal(False), replay=replay, key='C19/metric/zero', timeout=20)
+
+    for ctx, (a, r, js) in run_paths(H, name, prog, max_paths=32, max_decisions=60, raised=on_raise):
+        hyp = H.hyps_of(ctx, pairs=False)
+        pn = H.paths
+        for k in keys:
+            H.prove('%s/path%d/ape.%s==0' % (name, pn, k), hyp, a[k] == 0, replay=replay, key='C19/metric/zero', timeout=20)
+            H.prove('%s/path%d/rpe.%s==0' % (name, pn, k), hyp, r[k] == 0, replay=replay, key='C19/metric/zero', timeout=20)
+        if pn % 4 == 0:
+            H.reach('%s/path%d/reach' % (name, pn), hyp)
+
+
 # ------------------------------------------------------------------------------------------------ geodesic loss
 def case_geodesic(H, g):
     name = 'C19/geodesic_loss/%s' % g
@@ -363,10 +413,17 @@ def case_geodesic(H, g):
     def replay(model):
         torch.manual_seed(7)
         X, Y = RANDN[g](dtype=DT), RANDN[g](dtype=DT)
+        if model and any(k.startswith('x') for k in model):
+            X = pp.LieTensor(normalize_group(g, tensor_from_env(['x%d' % i for i in range(GDIM[g])], model)), ltype=GTYPE[g])
+            Y = pp.LieTensor(normalize_group(g, tensor_from_env(['y%d' % i for i in range(GDIM[g])], model)), ltype=GTYPE[g])
         a, b = pp.geodesic_loss(X, Y, 'none').item(), pp.geodesic_loss(Y, X, 'none').item()
         Rm = (X.rotation().matrix() @ Y.rotation().matrix().T)
         ang = torch.acos(((Rm.trace() - 1) / 2).clamp(-1, 1)).item()
-        return abs(a - b) > 1e-9 or abs(a - ang) > 1e-7 or not (0 <= a <= 3.1415927), 'geodesic_loss %.9g vs %.9g (swapped) vs rotation angle %.9g' % (a, b, ang)
+        # (angle from the relative quaternion: 2 atan2(|v|, |w|), accurate at small angles too)
+        qr = (X.rotation() @ Y.rotation().Inv()).tensor()
+        ang2 = 2 * torch.atan2(qr[:3].norm(), qr[3].abs()).item()
+        bad = abs(a - b) > 1e-9 or abs(a - ang) > 1e-7 or abs(a - ang2) > 1e-9 * (1 + ang2) + 1e-12 or not (0 <= a <= 3.1415927)
+        return bad, 'geodesic_loss %.12g vs %.12g (swapped) vs rotation angle %.12g at X=%s Y=%s' % (a, b, ang2, X.tolist(), Y.tolist())
 
     for ctx, (a, b, n_, me, su, mod, xs, ys) in run_paths(H, name, prog, max_paths=32, max_decisions=40, ctx_opts={'split_bool_casts': True}):
         hyp = H.hyps_of(ctx)
@@ -378,9 +435,65 @@ def case_geodesic(H, g):
                 key='C19/geodesic', timeout=to)
 
 
+def case_geodesic_angle(H, g):
+    """geodesic_loss(X, identity) IS the rotation angle of X: the theta in [0, pi] with cos(theta/2) = |w|.  (Against a fixed second
+    argument the relative rotation is X itself, which keeps the terms small enough for the staged proof; that the loss depends on
+    x * y^-1 only is visible in the symmetric / reduction obligations of the two-argument case.)"""
+    name = 'C19/geodesic_loss/%s/angle' % g
+
+    def prog(m):
+        X, xs = sym_group(m, g, 'x', 522)
+        I = pp.identity_like(X, dtype=DT)
+        a = pp.geodesic_loss(X, I, reduction='none')
+        at = m.full_terms(a)[0]
+        m.ctx.tfun('sin', at / 2), m.ctx.tfun('cos', at / 2)
+        return at, xs
+
+    def replay(model):
+        X = pp.LieTensor(normalize_group(g, tensor_from_env(['x%d' % i for i in range(GDIM[g])], model)), ltype=GTYPE[g])
+        worst, wx = 0.0, None
+        qi = {'SO3': 0, 'SE3': 3, 'RxSO3': 0, 'Sim3': 3}[g]
+        for f in (1.0, 0.5, 0.1, 1e-2, 1e-3, 1e-4):
+            xv = X.tensor().clone()
+            xv[qi:qi + 3] = xv[qi:qi + 3] * f            # same axis, smaller angles (the solver's point is arbitrary inside its branch)
+            Xf = pp.LieTensor(normalize_group(g, xv), ltype=GTYPE[g])
+            a = pp.geodesic_loss(Xf, pp.identity_like(Xf, dtype=DT), "none").item()
+            q = Xf.rotation().tensor()
+            ang = 2 * torch.atan2(q[:3].norm(), q[3].abs()).item()
+            e = abs(a - ang) / (1e-300 + ang) if ang > 0 else abs(a)
+            if e > worst:
+                worst, wx = e, (a, ang, Xf.tolist())
+        return worst > 1e-7, 'geodesic_loss(X, I) = %.12g but the rotation angle of X is %.12g (X=%s)' % (wx if wx else (0, 0, None))
+
+    for ctx, (a, xs) in run_paths(H, name, prog, max_paths=16, max_decisions=40, ctx_opts={'split_bool_casts': True}):
+        hyp = H.hyps_of(ctx)
+        pn = H.paths
+        to = 25 if H.quick else 120
+        tx, qx, sx = parts(g, xs)
+        wabs = z3.If(qx[3] >= 0, qx[3], -qx[3])
+        ch = ctx.tfun('cos', a / 2)
+        from .jac import small_regime_deep as small_regime
+        fams = quat_log_families(ctx)
+        H.prove('%s/path%d/in[0,pi]' % (name, pn), hyp, z3.And(a >= 0, a <= PI), replay=replay, key='C19/geodesic', timeout=to)
+        if fams and not small_regime(ctx):
+            for sign, tag in ((1, 'w>0'), (-1, 'w<0')):
+                case, lem = quat_log_lemmas(ctx, sign)
+                hy, lobs, _t = H.chain('%s/path%d/%s' % (name, pn, tag), hyp + case, lem, replay=replay, key='C19/geodesic', timeout=2 * to)
+                H.prove('%s/path%d/%s/cos(loss/2)==|w|' % (name, pn, tag), hy, ch == wabs, replay=replay, key='C19/geodesic', depends=lobs,
+                        timeout=2 * to, strategies=('default', 'nlsat'))
+        elif small_regime(ctx):
+            d = ch - wabs
+            tol = z3.RealVal('1/100000000000000')
+            H.prove('%s/path%d/cos(loss/2)==|w|/small-regime' % (name, pn), hyp, z3.And(d <= tol, d >= -tol), replay=replay, key='C19/geodesic', timeout=to)
+        else:
+            d = ch - wabs
+            H.prove('%s/path%d/cos(loss/2)==|w|' % (name, pn), hyp, ch == wabs, replay=replay, key='C19/geodesic', timeout=to,
+                    neg_margin=[z3.Or(d > z3.RealVal(mg), d < -z3.RealVal(mg)) for mg in ('1/1000', '1/10000000', '1/100000000000')])
+
+
 def run(H):
     H.assumptions += ['exact real arithmetic', 'valid poses', 'SE3 Log/Exp inside bspline are contract stubs (C01/C02) honouring Log(I)=0, Exp(0)=I, Exp(Log X)=X',
-                      'identical, exactly matching timestamps for ape/rpe']
+                      'ape/rpe: exactly matching timestamps, and (jitter case) stamps on a 4 ms grid with |jitter| < 1.5 ms under a 10 ms threshold']
     H.bounds += ['chspline: N in 2..4 (thorough 6), intervals {0.5, 0.25, 0.3}, C in {1,2}', 'bspline: N=4 poses (thorough 5), intervals {0.5, 0.3}',
                  'ape/rpe: 3 poses (thorough 4), translation error type', 'geodesic loss: SO3 (quick), SE3 (thorough)']
     jobs = []
@@ -390,12 +503,18 @@ def run(H):
     jobs.append(lambda: case_bspline(H, 4, 0.3, False))
     jobs.append(lambda: case_bspline(H, 2, 0.5, True))
     jobs.append(lambda: case_metrics(H, 3))
+    jobs.append(lambda: case_metrics_jitter(H, 3))
     jobs.append(lambda: case_geodesic(H, 'SO3'))
+    jobs.append(lambda: case_geodesic_angle(H, 'SO3'))
     if not H.quick:
         jobs.append(lambda: case_bspline(H, 5, 0.4, False))
         jobs.append(lambda: case_bspline(H, 3, 0.3, True))
         jobs.append(lambda: case_metrics(H, 4))
         jobs.append(lambda: case_geodesic(H, 'SE3'))
+        jobs.append(lambda: case_geodesic_angle(H, 'SE3'))
+    only = getattr(H, 'only', None)
+    if only:
+        jobs = {'geodesic': jobs[8:10], 'metrics': jobs[6:7], 'jitter': jobs[7:8], 'bspline': jobs[3:6], 'chspline': jobs[:3]}.get(only, jobs)
     for j in jobs:
         try:
             j()
